@@ -86,6 +86,10 @@ def step (st : St) (op : List String) : St × List String :=
     let st1 := settleAll st0
     let st2 := updCtl st1 n fun c => onTermsUpdated c (getCh st1 n)
     (st2, lines st2)
+  | ["otherevent", _] =>
+    -- an event without a handler changes nothing
+    let st1 := settleAll st
+    (st1, lines st1)
   | ["advance", s] =>
     let st1 := settleAll { st with now := st.now + parseInt s }
     (st1, lines st1)
